@@ -539,3 +539,51 @@ def soup(rng):
     for _ in range(n):
         s += rng.choice(SOUP) if rng.random() < 0.85 else chr(rng.choice([rng.randrange(0, 128), rng.randrange(128, 0x800), rng.randrange(0x800, 0xd800), rng.randrange(0x10000, 0x10ffff)]))
     return s.encode()
+
+
+# ---------------------------------------------------------------- C14: trees for the constructors
+
+# comment texts outside the round-trip hypotheses (line breaks, leading blanks)
+BAD_COMMENTS = ["two\nlines", " leading blank", "\tleading tab", "cr\rinside", "ends with cr\r", "\n"]
+BAD_NAMES = ["", "a b", "1x", "_a", "a_", "a__b", "x-y", "bool int", "é", "a.b", "A:", "a)", "(", "a,b", "#a", "a\n"]
+
+
+def gen_build_tree(rng, mode):
+    """mode "wf": inside C14's hypotheses (legal names, well-formed comments, comments at
+    interface / member / field / parameter / variant level, no comments inside inline types);
+    "wf_nocommentedenum": additionally outside the known class (no commented variants in enums with
+    two or more variants); "wild": anything the constructors accept."""
+    if mode == "wild":
+        src = gen_interface(rng, max_members=4, max_depth=3, pc=0.4, enum_variant_comments=0.4,
+                            inline_comments=0.3, variant_comments=0.3, empty_enum=0.2)
+        tree = partition(src)
+
+        def spoil(x):
+            if isinstance(x, dict):
+                for k, v in list(x.items()):
+                    if k in ("name", "n") and rng.random() < 0.08:
+                        x[k] = b(rng.choice(BAD_NAMES))
+                    elif k == "comments" and rng.random() < 0.1:
+                        x[k] = list(v) + [b(rng.choice(BAD_COMMENTS))]
+                    elif k == "i" and x.get("t") == "opt" and rng.random() < 0.2:
+                        x[k] = {"t": "opt", "i": v}
+                        spoil(v)
+                    else:
+                        spoil(v)
+            elif isinstance(x, list):
+                for v in x:
+                    spoil(v)
+        spoil(tree)
+        if rng.random() < 0.1:
+            tree["types"].append({"k": "enum", "name": type_name(rng), "variants": [], "comments": []})
+        return tree
+    evc = 0.0 if mode == "wf_nocommentedenum" else 0.5
+    src = gen_interface(rng, max_members=6, max_depth=4, pc=rng.choice([0, 0.3, 0.7]),
+                        enum_variant_comments=evc)
+    tree = partition(src)
+    if mode == "wf_nocommentedenum" and rng.random() < 0.3:
+        # a single commented variant is fine
+        tree["types"].append({"k": "enum", "name": type_name(rng),
+                              "variants": [{"name": field_name(rng), "comments": comments(rng, 1.0)}],
+                              "comments": comments(rng, 0.3)})
+    return tree
